@@ -575,6 +575,7 @@ CHECKS = {
             C('core', 'TestCore', 'TraceCore', n={'quick': 120, 'thorough': 1500}),
             C('errors', 'TestErrorsReal', 'TraceErrors', trivial_len=3),
             C('opts', 'TestOptions', 'TraceOptions', trivial_len=3, vtimeout=3000, env={'VERIF_OPTS_ONLY': 'ep-'}),
+            C('closereal', 'TestCloseReal', 'TraceLifecycle', trivial_len=3),   # Attached without Detached when Close races with completing connections
         ],
         'assumptions': ASSUME_COMMON,
     },
